@@ -10,7 +10,8 @@ RULE = ('one case = one statement of a random history (PRINT with wrap/scroll/co
         'VIEW PRINT, KEY ON/OFF, SCREEN mode/page switches (also four-argument SCREEN and WIDTH between modes with '
         'different page counts from high page numbers), WIDTH, PCOPY, POKE into video memory, PSET/LINE/CIRCLE/'
         'PAINT/GET/PUT/DRAW/VIEW, INPUT with typed keys) executed in a real Session of one of the adapters cga/ega/vga/tandy/pcjr/hercules/'
-        'olivetti with a recording video queue, checked after the statement; plus one case per operation of random '
+        'olivetti (and ega/vga under the double-byte codepages 936/932/949/950 with strings of lead bytes, trail bytes, '
+        'complete characters and ASCII written over existing text) with a recording video queue, checked after the statement; plus one case per operation of random '
         'operation histories on real VideoBuffer pages of small geometry; non-trivial = the statement emitted at '
         'least one update/clear_rows/scroll/set_mode signal')
 EXPLANATION = ('theorems (PcbV.Props.C35): display_tracks_buffer (induction over arbitrary valid histories of page '
@@ -27,7 +28,9 @@ TRUSTED_BASE = ['model PcbV.Model.Screen is a hand transcription of display/buff
                 'base/bytematrix.py slicing/move, display.py:set_page/pcopy_/rebuild and of the consumers '
                 'interface/video_sdl2.py (pixels) and video_curses.py (text)',
                 'the reference display in props/c35.py is a second, independent transcription of the consumers']
-ASSUMPTIONS = ['glyph rendering and split_attr are parameters of the model; single-byte codepages; insert/delete of the '
+ASSUMPTIONS = ['glyph rendering, split_attr and the byte-row -> unicode-cell conversion (single- or double-byte) are '
+               'parameters of the model; full-width sprite rendering is not modelled (DBCS correspondence compares text, '
+               'signals and geometry, not pixels); insert/delete of the '
                'interactive line editor and row length/wrap flags are not modelled (they reach the display only through '
                'the modelled _update/force_submit path)',
                'pixel size = text size x font size (all modes except Hercules graphics, which the oracle covers)']
@@ -174,9 +177,18 @@ def font_byte(c, i):
 class BufferRig(object):
     """Real VideoBuffer objects with a real Font (synthetic glyph bytes), colourmap and codepage."""
 
-    def __init__(self):
+    # bytes used in DBCS histories: blanks, ASCII that is / is not a trail byte, lead bytes, high trails, non-pairing
+    DBCS_ALPHABET = [0x20, 0x41, 0x43, 0x31, 0x7e, 0xb0, 0xc4, 0xa1, 0x81, 0xfe, 0x7f, 0x80, 0xff]
+
+    def __init__(self, dbcs=False):
         from pcbasic.basic.display import font as fontmod
-        self.session = basic.new_session()
+        self.dbcs = dbcs
+        if dbcs:
+            # codepage 936 (GBK) without box protection: the converter is then the plain lead/trail pairing
+            from pcbasic.basic import codepage as read_cp
+            self.session = basic.new_session(codepage=read_cp('936'), box_protect=False, video='vga')
+        else:
+            self.session = basic.new_session()
         disp = self.session._impl.display
         self.codepage = self.session._impl.codepage
         self.colourmap = disp.colourmap          # text-mode colour map: back = (attr >> 4) & 7
@@ -184,6 +196,39 @@ class BufferRig(object):
         self.uni = [self.codepage.codepoint_to_unicode(bytes(bytearray([c])), use_substitutes=True)
                     for c in range(256)]
         self.inv = {u: c for c, u in enumerate(self.uni)}
+        self.alphabet = None
+        if dbcs:
+            cp = self.codepage
+            assert cp.dbcs and not cp.box_protect
+            lead = set(bytearray(b''.join(cp.lead)))
+            trail = set(bytearray(b''.join(cp.trail)))
+            assert lead == set(range(0x81, 0xff)) and trail == set(range(0x40, 0xff)) - {0x7f}, 'GBK ranges changed'
+            # cell codes as in the model: single byte b -> b, pair -> 256*lead+trail, u'' marker -> 65535;
+            # keep only alphabet bytes whose cells are told apart by their unicode value
+            alpha = list(self.DBCS_ALPHABET)
+            while True:
+                inv, bad = {u'': 65535}, None
+                for b in alpha:
+                    u = self.uni[b]
+                    if u in inv:
+                        bad = b
+                        break
+                    inv[u] = b
+                if bad is None:
+                    for l in alpha:
+                        for t in alpha:
+                            if l in lead and t in trail:
+                                u = cp.codepoint_to_unicode(bytes(bytearray([l, t])), use_substitutes=True)
+                                if u in inv:
+                                    bad = t if t not in (0x20, 0x41) else l
+                                    break
+                                inv[u] = 256 * l + t
+                        if bad is not None:
+                            break
+                if bad is None:
+                    break
+                alpha.remove(bad)
+            self.inv, self.alphabet = inv, alpha
         self.fonts = {}
 
     def font(self, fh):
@@ -205,8 +250,15 @@ def hexs(bs):
     return bs.hex() if bs else '-'
 
 
-def gen_buffer_history(rng, th, tw, fh, np_, nops):
-    """Valid operation history (protocol words) for the model and the real pages."""
+def hex16(codes):
+    """cell codes, 4 hex digits each"""
+    return ''.join('%04x' % c for c in codes) if codes else '-'
+
+
+def gen_buffer_history(rng, th, tw, fh, np_, nops, alphabet=None):
+    """Valid operation history (protocol words) for the model and the real pages.
+    With `alphabet` (DBCS run): bytes come from it, several adjacent cells are often written in one
+    `collect_updates` bracket (a string), and there are no pixel writes (graphics modes have no DBCS)."""
     H, W = th * fh, tw * 8
     ops = ['V,%d' % rng.randrange(np_)]
     locked = [False] * np_
@@ -214,7 +266,20 @@ def gen_buffer_history(rng, th, tw, fh, np_, nops):
     for _ in range(nops):
         i = rng.randrange(np_)
         k = rng.random()
-        if k < 0.30:
+        if alphabet and k < 0.45:
+            row = rng.choice([1, th, rng.randint(1, th)])
+            col = rng.choice([1, tw, tw - 1, rng.randint(1, tw)])
+            n = rng.choice([1, 1, 1, 2, 2, 3, 4])
+            cells = [(col + j, rng.choice(alphabet)) for j in range(n) if 1 <= col + j <= tw]
+            attr = rng.choice(attrs)
+            bracket = len(cells) > 1 and not locked[i] and rng.random() < 0.7
+            if bracket:
+                ops.append('L,%d' % i)
+            for cc, ch in cells:
+                ops.append('P,%d,%d,%d,%d,%d' % (i, row, cc, ch, attr))
+            if bracket:
+                ops.append('U,%d' % i)
+        elif k < 0.30:
             row = rng.choice([1, th, rng.randint(1, th)])
             col = rng.choice([1, tw, rng.randint(1, tw)])
             ops.append('P,%d,%d,%d,%d,%d' % (i, row, col, rng.choice([32, 65, 0, 255, 219, rng.randrange(256)]),
@@ -236,7 +301,7 @@ def gen_buffer_history(rng, th, tw, fh, np_, nops):
             a = rng.randint(1, th)
             b = rng.choice([a, th, rng.randint(a, th)])
             ops.append('%s,%d,%d,%d,%d' % (rng.choice(['SU', 'SD']), i, a, b, rng.choice(attrs)))
-        elif k < 0.84:
+        elif k < 0.84 and not alphabet:
             y0 = rng.randrange(H)
             y1 = rng.choice([y0 + 1, H, rng.randint(y0 + 1, H)])
             x0 = rng.randrange(W)
@@ -261,7 +326,9 @@ def run_buffer_history(rig, th, tw, fh, np_, attr, ops, oracle=None):
     queues = FakeQueues()
     font = rig.font(fh)
     H, W = th * fh, tw * 8
-    pages = [VideoBuffer(queues, H, W, th, tw, rig.colourmap, attr, font, rig.codepage, do_fullwidth=False)
+    dbcs = rig.dbcs
+    pxh = (lambda b: '-') if dbcs else hexs      # full-width sprite rendering is not modelled
+    pages = [VideoBuffer(queues, H, W, th, tw, rig.colourmap, attr, font, rig.codepage, do_fullwidth=dbcs)
              for _ in range(np_)]
     vnum = 0
     locks = {}
@@ -282,8 +349,8 @@ def run_buffer_history(rig, th, tw, fh, np_, attr, ops, oracle=None):
                 att = [a for r in am for a in r]
                 rows = sprite_rows(sprite)
                 sig_words.append('U,%d,%d,%d,%d,%s,%s,%d,%d,%d,%d,%s' % (
-                    row, col, len(um), len(um[0]) if um else 0, hexs(txt), hexs(att), y0, x0,
-                    len(rows), len(rows[0]) if rows else 0, hexs(b''.join(rows))))
+                    row, col, len(um), len(um[0]) if um else 0, hex16(txt), hexs(att), y0, x0,
+                    len(rows), len(rows[0]) if rows else 0, pxh(b''.join(rows))))
             elif ev.event_type == signals.VIDEO_CLEAR_ROWS:
                 sig_words.append('C,%d,%d,%d' % tuple(p))
             elif ev.event_type == signals.VIDEO_SCROLL:
@@ -331,7 +398,7 @@ def run_buffer_history(rig, th, tw, fh, np_, attr, ops, oracle=None):
             tx = vp.get_chars(as_type=type(u''))
             locked = vnum in locks
             d = diff_screen(ref, px, tx if not locked else [list(r) for r in ref.text])
-            if not d and not locked:
+            if not d and not locked and not dbcs:
                 # the raw character buffer (what get_chars() / SCREEN() report) shows the same characters
                 raw = [[rig.uni[ord(c)] for c in r.chars] for r in vp._rows]
                 d = diff_screen(ref, px, raw)
@@ -346,10 +413,10 @@ def run_buffer_history(rig, th, tw, fh, np_, attr, ops, oracle=None):
         att = [a for r in p._rows for a in r.attrs]
         ut = [rig.inv.get(c, 63) for r in p._dbcs_text for c in r]
         px = b''.join(bytes(bytearray(r)) for r in p._pixels._rows)
-        return '%s,%s,%s,%s,%d' % (hexs(chars), hexs(att), hexs(ut), hexs(px), 1 if p._visible else 0)
+        return '%s,%s,%s,%s,%d' % (hexs(chars), hexs(att), hex16(ut), pxh(px), 1 if p._visible else 0)
     page_words = [page_word(p) for p in pages]
-    cvpx = hexs(b''.join(bytes(r) for r in ref.canvas))
-    cvtx = hexs([rig.inv.get(c, 63) for r in ref.text for c in r])
+    cvpx = pxh(b''.join(bytes(r) for r in ref.canvas))
+    cvtx = hex16([rig.inv.get(c, 63) for r in ref.text for c in r])
     # Display.rebuild: mode, then every page resubmits; folded into a fresh reference display
     ref2 = RefDisplay()
     ref2.feed(sg.Event(sg.VIDEO_SET_MODE, (H, W, th, tw)))
@@ -357,8 +424,8 @@ def run_buffer_history(rig, th, tw, fh, np_, attr, ops, oracle=None):
         p.resubmit()
     for ev in queues.video.drain():
         ref2.feed(ev)
-    cv2px = hexs(b''.join(bytes(r) for r in ref2.canvas))
-    cv2tx = hexs([rig.inv.get(c, 63) for r in ref2.text for c in r])
+    cv2px = pxh(b''.join(bytes(r) for r in ref2.canvas))
+    cv2tx = hex16([rig.inv.get(c, 63) for r in ref2.text for c in r])
     for cm in locks.values():
         cm.__exit__(None, None, None)
     return 'ok %s %d %s %s %s %s %s' % (';'.join(sig_words), vnum, ';'.join(page_words),
@@ -366,16 +433,21 @@ def run_buffer_history(rig, th, tw, fh, np_, attr, ops, oracle=None):
 
 
 def buffer_level(ctx, nhist):
-    rig = BufferRig()
+    rigs = {False: BufferRig(), True: BufferRig(dbcs=True)}
     rng = ctx.rng
     cases, outs, lines = [], [], []
     for n in range(nhist):
+        dbcs = n % 3 == 2            # a third of the histories under a double-byte codepage
+        rig = rigs[dbcs]
         th, tw, fh = rng.randint(2, 5), rng.randint(2, 6), rng.choice([1, 2, 3, 4])
+        if dbcs:
+            th, tw = rng.randint(1, 3), rng.randint(3, 8)
         np_ = rng.choice([1, 2, 2, 3])
         attr = rng.choice([7, 0x17, 0x70])
         nops = rng.choice([3, 8, 20, 40])
-        ops = gen_buffer_history(rng, th, tw, fh, np_, nops)
-        case = {'level': 'buffer', 'geom': [th, tw, fh, np_, attr], 'ops': ops}
+        ops = gen_buffer_history(rng, th, tw, fh, np_, nops, rig.alphabet)
+        case = {'level': 'buffer', 'geom': [th, tw, fh, np_, attr], 'dbcs': dbcs, 'ops': ops}
+        ctx.count('buffer-histories:' + ('dbcs' if dbcs else 'sbcs'))
 
         def oracle(opword, what, case=case):
             ctx.fail('buffer:%s' % opword.split(',')[0], dict(case, at=opword),
@@ -391,7 +463,7 @@ def buffer_level(ctx, nhist):
             ctx.count('bufop:' + w.split(',')[0])
         cases.append(case)
         outs.append(out)
-        lines.append('run %d %d %d 8 %d %d %s' % (th, tw, fh, np_, attr, ';'.join(ops)))
+        lines.append('run %d %d %d 8 %d %d %d %s' % (th, tw, fh, np_, attr, 1 if dbcs else 0, ';'.join(ops)))
     ctx.compare(cases, outs, lines, label='buffer-history')
     if cases:
         ctx.sample({'buffer_history': lines[0][:300], 'impl': outs[0][:300]})
@@ -406,13 +478,16 @@ _FONT_CACHE = {}
 def session_kwargs(cfg):
     kw = dict(video=cfg['video'])
     fam = cfg.get('font')
+    cpname = cfg.get('codepage', '437')
     if fam:
-        if fam not in _FONT_CACHE:
+        if (fam, cpname) not in _FONT_CACHE:
             from pcbasic import data
-            cpd = data.read_codepage('437')
-            _FONT_CACHE[fam] = (cpd, data.read_fonts(cpd, fam.split(',')))
-        cpd, fonts = _FONT_CACHE[fam]
+            cpd = data.read_codepage(cpname)
+            _FONT_CACHE[(fam, cpname)] = (cpd, data.read_fonts(cpd, fam.split(',')))
+        cpd, fonts = _FONT_CACHE[(fam, cpname)]
         kw.update(codepage=cpd, font=fonts)
+    if 'box_protect' in cfg:
+        kw['box_protect'] = cfg['box_protect']
     if cfg.get('monitor'):
         kw['monitor'] = cfg['monitor']
     if cfg.get('text_width'):
@@ -636,7 +711,8 @@ def run_history(ctx, cfg, hist, report, tmpdir=None, resume_at=()):
         if d:
             report('screen', idx, label, d)
             return
-        d = run.check_bytes()
+        # cell-by-cell comparison of the raw bytes only means something for single-byte codepages
+        d = None if run.session._impl.codepage.dbcs else run.check_bytes()
         if d:
             report('chars', idx, label, d)
             return
@@ -840,6 +916,141 @@ def page_count_level(ctx, nrandom, all_pairs):
                          % (cfg['video'], kind, a, b, page, ' : '.join(s for _, s in prefix[-4:]), what))
 
 
+# ---------------------------------------------------------------------------------------------
+# text histories under double-byte codepages (DBCS text needs a 14/16-pixel font: ega / vga)
+
+DBCS_CODEPAGES = ['936', '932', '949', '950']
+
+
+def dbcs_config(cpname, video, box_protect):
+    return dict(video=video, font='vga', codepage=cpname, box_protect=box_protect, modes=[0])
+
+
+def codepage_bytes(cfg):
+    """(lead bytes, trail bytes that are printable ASCII, high trail bytes, neither) of the configured codepage"""
+    s = basic.new_session(**session_kwargs(cfg))
+    cp = s._impl.codepage
+    lead = sorted(bytearray(b''.join(cp.lead)))
+    trail = sorted(bytearray(b''.join(cp.trail)))
+    s.close()
+    return dict(lead=lead, atrail=[b for b in trail if 0x41 <= b < 0x7f], htrail=[b for b in trail if b >= 0x80],
+                plain=[b for b in range(0x30, 0x3a)] + [0x20])
+
+
+def chr_list(bs):
+    return ';'.join('CHR$(%d)' % b for b in bs)
+
+
+def dbcs_fragment(rng, cb):
+    """a short byte string: ASCII, lone lead, lone trail, complete character, and mixtures"""
+    k = rng.random()
+    lead, at, ht, plain = cb['lead'], cb['atrail'], cb['htrail'], cb['plain']
+    if k < 0.2:
+        return [rng.choice(lead)]                                   # lone lead byte
+    if k < 0.35:
+        return [rng.choice(at + ht)]                                # lone (possible) trail byte
+    if k < 0.55:
+        return [rng.choice(lead), rng.choice(at + ht)]              # a complete double-byte character
+    if k < 0.7:
+        return [rng.choice(at) for _ in range(rng.randint(1, 5))]   # ASCII that can serve as trail bytes
+    if k < 0.8:
+        return [rng.choice(plain) for _ in range(rng.randint(1, 3))]
+    n = rng.randint(2, 6)
+    return [rng.choice(rng.choice([lead, at, ht, plain])) for _ in range(n)]
+
+
+def dbcs_history(rng, cb, nstmt, width=80):
+    """text written at arbitrary columns over existing text on a few rows: halves of characters are
+    overwritten, new pairs arise from a written lead + an existing trail and vice versa, also at the row end"""
+    rows = [rng.randint(1, 23) for _ in range(2)]
+    hist = []
+    if rng.random() < 0.5:
+        hist.append(('color', 'COLOR %d,%d' % (rng.randrange(1, 16), rng.randrange(8))))
+    while len(hist) < nstmt:
+        k = rng.random()
+        row = rng.choice(rows)
+        col = rng.choice([rng.randint(1, 10), rng.randint(1, 10), rng.randint(1, 10), width - 2, width - 1, width,
+                          rng.randint(1, width)])
+        if k < 0.72:
+            frag = dbcs_fragment(rng, cb)
+            hist.append(('dbcs-print', 'LOCATE %d,%d:PRINT %s;' % (row, col, chr_list(frag))))
+        elif k < 0.78:
+            hist.append(('color', 'COLOR %d,%d' % (rng.randrange(1, 16), rng.randrange(8))))
+        elif k < 0.84:
+            # the key line and logical-line clearing rebuild whole rows of the unicode buffer
+            hist.append(('key', rng.choice(['KEY ON', 'KEY OFF'])))
+        elif k < 0.9:
+            hist.append(('dbcs-scroll', 'LOCATE 23,1:PRINT %s:PRINT %s' % (chr_list(dbcs_fragment(rng, cb)),
+                                                                         chr_list(dbcs_fragment(rng, cb)))))
+            rows = [max(1, r - rng.choice([0, 1, 2])) for r in rows]
+        elif k < 0.94:
+            hist.append(('cls', 'CLS'))
+        elif k < 0.97:
+            hist.append(('pcopy', rng.choice(['PCOPY 0,1', 'SCREEN ,1,1,0', 'SCREEN ,1,0,0', 'SCREEN ,1,1,1'])))
+        else:
+            width = rng.choice([40, 80])
+            hist.append(('width', 'WIDTH %d' % width))
+    return hist
+
+
+def dbcs_core_history(rng, cb):
+    """deterministic core: a run of ASCII trail-capable letters, then a lone lead byte written at each
+    column in front of / inside / behind it, and a lone trail written behind an existing lone lead"""
+    hist = []
+    row = 2
+    for col in (1, 2, 3, 4, 5):
+        letters = [rng.choice(cb['atrail']) for _ in range(4)]
+        hist.append(('dbcs-print', 'LOCATE %d,2:PRINT %s;' % (row, chr_list(letters))))
+        hist.append(('dbcs-print', 'LOCATE %d,%d:PRINT %s;' % (row, col, chr_list([rng.choice(cb['lead'])]))))
+        hist.append(('dbcs-print', 'LOCATE %d,%d:PRINT %s;' % (row, col + 1, chr_list([rng.choice(cb['htrail'])]))))
+        hist.append(('dbcs-print', 'LOCATE %d,%d:PRINT %s;' % (row, col, chr_list([rng.choice(cb['plain'])]))))
+        row += 1
+    # a complete character, then each half rewritten unchanged in another colour (the redraw must take the
+    # whole character), then each half replaced
+    for col in (1, 10):
+        l, t = rng.choice(cb['lead']), rng.choice(cb['atrail'] + cb['htrail'])
+        hist.append(('dbcs-print', 'LOCATE 8,%d:PRINT %s;' % (col, chr_list([65, l, t, 66]))))
+        hist.append(('color', 'COLOR %d,%d' % (rng.randrange(9, 16), rng.randrange(1, 8))))
+        hist.append(('dbcs-print', 'LOCATE 8,%d:PRINT %s;' % (col + 1, chr_list([l]))))
+        hist.append(('color', 'COLOR %d,%d' % (rng.randrange(1, 8), rng.randrange(1, 8))))
+        hist.append(('dbcs-print', 'LOCATE 8,%d:PRINT %s;' % (col + 2, chr_list([t]))))
+        hist.append(('dbcs-print', 'LOCATE 8,%d:PRINT %s;' % (col + 1, chr_list([rng.choice(cb['plain'])]))))
+    hist.append(('dbcs-print', 'LOCATE 9,79:PRINT %s;' % chr_list([rng.choice(cb['atrail']), rng.choice(cb['atrail'])])))
+    hist.append(('dbcs-print', 'LOCATE 9,78:PRINT %s;' % chr_list([rng.choice(cb['lead'])])))
+    hist.append(('dbcs-print', 'LOCATE 9,80:PRINT %s;' % chr_list([rng.choice(cb['lead'])])))
+    return hist
+
+
+def dbcs_level(ctx, nrandom, nstmt):
+    rng = ctx.rng
+    plans = []
+    for i, cpname in enumerate(DBCS_CODEPAGES):
+        # the core once per codepage (adapter and box protection alternate), random histories on top
+        plans.append((dbcs_config(cpname, 'vga' if i % 2 == 0 else 'ega', i % 2 == 1), True))
+    for _ in range(nrandom):
+        plans.append((dbcs_config(rng.choice(DBCS_CODEPAGES), rng.choice(['vga', 'ega']), rng.random() < 0.5), False))
+    cbs = {}
+    for cfg, core in plans:
+        if cfg['codepage'] not in cbs:
+            cbs[cfg['codepage']] = codepage_bytes(cfg)
+        cb = cbs[cfg['codepage']]
+        hist = dbcs_core_history(rng, cb) if core else []
+        hist += dbcs_history(rng, cb, nstmt)
+        ctx.count('dbcs-histories:%s' % cfg['codepage'])
+        found = []
+        run_history(ctx, cfg, hist, lambda kind, idx, label, what: found.append((kind, idx, label, what)))
+        if found:
+            kind, idx, label, what = found[0]
+            prefix = hist[:idx + 1]
+            if kind in ('screen', 'rebuild'):
+                prefix = shrink(ctx, cfg, prefix, kind, budget=30)
+            ctx.fail('%s:%s' % (kind, label),
+                     {'level': 'session', 'cfg': dict(cfg), 'history': prefix, 'resume_at': []},
+                     '%s codepage %s%s (%s): after %s the display that applies the emitted video signals differs '
+                     'from the interpreter: %s' % (cfg['video'], cfg['codepage'], '' if cfg['box_protect'] else ':nobox',
+                                                   kind, ' : '.join(s for _, s in prefix[-3:]), what))
+
+
 # boundary histories from the design (D12 and its single-row variant, page switches, key bar, wrapping)
 FIXED_HISTORIES = [
     (0, ['SCREEN 0', 'COLOR 7,1', 'CLS', 'FOR I=1 TO 30:PRINT I:NEXT']),
@@ -877,6 +1088,8 @@ def run(ctx):
     ctx.log('fixed histories done')
     buffer_level(ctx, 250 if ctx.quick else 4000)
     ctx.log('buffer-level histories done')
+    dbcs_level(ctx, 4 if ctx.quick else 60, 25 if ctx.quick else 80)
+    ctx.log('double-byte codepage histories done')
     page_count_level(ctx, 1 if ctx.quick else 6, not ctx.quick)
     ctx.log('page-count histories done')
     if ctx.quick:
@@ -889,7 +1102,7 @@ def replay(ctx, payload):
     case = payload.get('case', {})
     found = []
     if case.get('level') == 'buffer':
-        rig = BufferRig()
+        rig = BufferRig(dbcs=bool(case.get('dbcs')))
         th, tw, fh, np_, attr = case['geom']
         run_buffer_history(rig, th, tw, fh, np_, attr, case['ops'], lambda w, what: found.append(
             'VideoBuffer history: after %s the reference display differs from the visible page: %s' % (w, what)))
